@@ -2,6 +2,7 @@ package command
 
 import (
 	"bufio"
+	"bytes"
 	"context"
 	"errors"
 	"io"
@@ -9,6 +10,7 @@ import (
 	"os"
 	"strconv"
 	"strings"
+	"sync"
 	"time"
 
 	"github.com/google/gopacket/layers"
@@ -358,9 +360,10 @@ func (o *ipPortScanCmdOpts) newIPPortGenerator() (reqgen scan.RequestGenerator) 
 			return os.Open(o.ipFile)
 		})
 	}
+	openStdin := cachedStdin()
 	ipgen := scan.NewFileIPGenerator(func() (io.ReadCloser, error) {
 		if o.ipFile == "-" {
-			return io.NopCloser(os.Stdin), nil
+			return openStdin()
 		}
 		return os.Open(o.ipFile)
 	})
@@ -490,9 +493,10 @@ func (o *genericScanCmdOpts) newIPPortGenerator() (reqgen scan.RequestGenerator)
 			return os.Open(o.ipFile)
 		})
 	}
+	openStdin := cachedStdin()
 	ipgen := scan.NewFileIPGenerator(func() (io.ReadCloser, error) {
 		if o.ipFile == "-" {
-			return io.NopCloser(os.Stdin), nil
+			return openStdin()
 		}
 		return os.Open(o.ipFile)
 	})
@@ -583,6 +587,23 @@ func parseIPFlags(inputFlags string) (result uint8, err error) {
 }
 
 type openFileFunc func() (io.ReadCloser, error)
+
+// cachedStdin returns a function that opens the content of stdin again and again:
+// the file of IPs is read once per port, but stdin itself can be read only once
+func cachedStdin() openFileFunc {
+	var once sync.Once
+	var data []byte
+	var err error
+	return func() (io.ReadCloser, error) {
+		once.Do(func() {
+			data, err = io.ReadAll(os.Stdin)
+		})
+		if err != nil {
+			return nil, err
+		}
+		return io.NopCloser(bytes.NewReader(data)), nil
+	}
+}
 
 func parseExcludeFile(openFile openFileFunc) (excludeIPs scan.IPContainer, err error) {
 	input, err := openFile()
